@@ -567,6 +567,23 @@ impl Prop for C01 {
             out.push(("many-tables", crate::props2::simple_spec(rules, i % 2 == 1, vec![])));
         }
         out.extend(deep_rewind_specs(r, tier.pick(6, 18)));
+        // about 2^16 tokens between a remembered shorter match and a failure that has nothing
+        // to rewind to (counters of the runtime that wrap after 65 536 events)
+        for i in 0..4 {
+            let set = |a: char, b: char| Re::Set(vec![oracle::re::SetItem::C(a), oracle::re::SetItem::C(b)]);
+            let rules = vec![
+                (Re::Char('a'), None),
+                (oracle::re::cat(oracle::re::cat(set('a', 'x'), Re::Char('b')), Re::Char('c')), None),
+                (Re::Char('y'), None),
+            ];
+            let mut s = crate::props2::simple_spec(rules, i % 2 == 1, vec![]);
+            if i >= 2 {
+                for rule in s.rules_mut() {
+                    rule.kind = Kind::Ret;
+                }
+            }
+            out.push(("token-wrap", s));
+        }
         out
     }
     fn adjust_spec(&self, mut spec: Spec, r: &mut TestRunner) -> Spec {
@@ -600,6 +617,16 @@ impl Prop for C01 {
         cs.extend(long_cases(ctx, c, r, 2, 400, 400_000));
         if ctx.profile == "deep-rewind" {
             cs.extend(deep_rewind_cases(ctx));
+        }
+        if ctx.profile == "token-wrap" {
+            for n in [65_534usize, 65_535, 65_536, 65_537, 131_071, 131_072] {
+                for (head, tail) in [("abc", "xbd"), ("a", "xbda"), ("abcabc", "xb")] {
+                    let mut s = String::from(head);
+                    s.extend(std::iter::repeat('y').take(n));
+                    s.push_str(tail);
+                    cs.push(gen::simple_case(s, vec![]));
+                }
+            }
         }
         if ctx.idx % 4 == 0 {
             // a single attempt that reads more than 65 536 characters and is rewound
